@@ -70,8 +70,8 @@ structure BRec where
 inductive Gate where
   /-- `Handle` decided to pass the worker's own record through; it now sits in the final handler -/
   | pass (r : BRec)
-  /-- `flush` is replaying: the record in the final handler, then the rest of the batch -/
-  | replay (r : BRec) (rest : List BRec)
+  /-- `flush` is replaying: the head of `St.batch` sits in the final handler -/
+  | replay
   deriving Repr, DecidableEq
 
 structure Worker where
@@ -96,8 +96,11 @@ structure St where
   buffering : Bool
   /-- `bufferState.records` -/
   buffer : List BRec
-  /-- `Logger.mu` is held by a `FlushBuffer` in progress -/
-  flushing : Bool
+  /-- the worker whose `FlushBuffer` in progress holds `Logger.mu` -/
+  flusher : Option Nat
+  /-- the local `records` slice of that `flush` call: what it still has to replay, head first
+      (`Logger.mu` admits one `FlushBuffer` at a time, so there is one such slice) -/
+  batch : List BRec
   trace : List Ev
   deriving Repr
 
@@ -114,19 +117,22 @@ def writeEv (fl : Flags) (replayed : Bool) (r : BRec) : List Ev :=
   if r.c.fail then []
   else [.write r.g r.c.seq (if replayed && r.c.derived then fl.keepHandler else true)]
 
-/-- `flush`, after a batch has been replayed (or at the beginning): as shipped there is one batch and
-    `buffering` was already switched off; repaired, the buffer is inspected again under the lock and
-    `buffering` is switched off only when it is empty. Returns the next gate, if any. -/
-def flushTake (fl : Flags) (s : St) (first : Bool) : St × Option Gate :=
+/-- `flush`, at the beginning (`first`) or after a batch has been replayed: as shipped there is one
+    batch and `buffering` is switched off when it is taken; repaired, the buffer is inspected again
+    under the lock and `buffering` is switched off only when it is found empty. The batch taken (if
+    any) becomes `St.batch`. -/
+def flushTake (fl : Flags) (s : St) (first : Bool) : St :=
   if fl.loopFlush then
     match s.buffer with
-    | [] => ({ s with buffering := false }, none)
-    | r :: rest => ({ s with buffer := [] }, some (.replay r rest))
-  else if first then
-    match s.buffer with
-    | [] => ({ s with buffering := false }, none)
-    | r :: rest => ({ s with buffer := [], buffering := false }, some (.replay r rest))
-  else (s, none)
+    | [] => { s with buffering := false }
+    | r :: rest => { s with buffer := [], batch := r :: rest }
+  else if first then { s with buffer := [], batch := s.buffer, buffering := false }
+  else s
+
+/-- the flusher continues after `flushTake`: block on the next record or return -/
+def flushContinue (s : St) (g : Nat) (w : Worker) : St :=
+  if s.batch.isEmpty then finishOp { s with flusher := none } g w
+  else setWorker { s with flusher := some g } g { w with gate := some .replay }
 
 /-- one segment of worker `g` -/
 def advance (fl : Flags) (s : St) (g : Nat) : St :=
@@ -137,18 +143,16 @@ def advance (fl : Flags) (s : St) (g : Nat) : St :=
     | some (.pass r) =>
       -- the stalled pass-through write completes
       finishOp (emit s (writeEv fl false r)) g w
-    | some (.replay r rest) =>
-      let s := emit s (writeEv fl true r)
-      if r.c.fail && !fl.continueOnError then
-        -- `return err`: the rest of the batch is dropped
-        finishOp { s with flushing := false } g w
-      else
-        match rest with
-        | r' :: rest' => setWorker s g { w with gate := some (.replay r' rest') }
-        | [] =>
-          match flushTake fl s false with
-          | (s, some gt) => setWorker s g { w with gate := some gt }
-          | (s, none) => finishOp { s with flushing := false } g w
+    | some .replay =>
+      match s.batch with
+      | [] => flushContinue (flushTake fl s false) g w
+      | r :: rest =>
+        let s := emit s (writeEv fl true r)
+        if r.c.fail && !fl.continueOnError then
+          -- `return err`: the rest of the batch is dropped
+          finishOp { s with flusher := none, batch := [] } g w
+        else if rest.isEmpty then flushContinue (flushTake fl { s with batch := [] } false) g w
+        else { s with batch := rest }
     | none =>
       match w.ops with
       | [] => s
@@ -163,14 +167,14 @@ def advance (fl : Flags) (s : St) (g : Nat) : St :=
             finishOp { s with buffer := s.buffer ++ [{ g := g, c := c }] } g w
           else setWorker s g { w with gate := some (.pass { g := g, c := c }) }
         | .startBuffering =>
-          if s.flushing then s
+          if s.flusher.isSome then s
           else
             let s := emit s [.begin g w.idx]
             let s := if s.wrapped then { s with buffering := true }
                      else { s with wrapped := true, buffering := true, buffer := [] }
             finishOp s g w
         | .setLevel lvl =>
-          if s.flushing then s
+          if s.flusher.isSome then s
           else
             let s := emit s [.begin g w.idx]
             if s.custom then finishOp s g w   -- ErrCannotChangeLevel
@@ -181,14 +185,11 @@ def advance (fl : Flags) (s : St) (g : Nat) : St :=
               finishOp s g w
         | .shutdown => finishOp { (emit s [.begin g w.idx]) with shutdown := true } g w
         | .flush =>
-          if s.flushing then s
+          if s.flusher.isSome then s
           else
             let s := emit s [.begin g w.idx]
             if !s.wrapped then finishOp s g w
-            else
-              match flushTake fl s true with
-              | (s, some gt) => setWorker { s with flushing := true } g { w with gate := some gt }
-              | (s, none) => finishOp s g w
+            else flushContinue (flushTake fl s true) g w
 
 /-- ungated mode: the final handler never blocks, so a worker that reaches it goes straight on; `fuel`
     bounds the number of records that can be in flight -/
@@ -212,7 +213,7 @@ def step (fl : Flags) (fuel : Nat) (s : St) : Step → St
 
 def initSt (custom : Bool) (progs : List (List Op)) : St :=
   { ws := progs.map fun p => { ops := p, idx := 0, gate := none }, level := 1, shutdown := false, custom := custom,
-    wrapped := false, buffering := false, buffer := [], flushing := false, trace := [] }
+    wrapped := false, buffering := false, buffer := [], flusher := none, batch := [], trace := [] }
 
 def totalOps (progs : List (List Op)) : Nat := (progs.map List.length).foldl (· + ·) 0
 
